@@ -38,11 +38,23 @@ def main():
         grep_forbidden(ctx)
         if hasattr(mod, "post_build"):
             mod.post_build(ctx)
-    try:
-        mod.check(ctx)
-    except Exception as e:  # noqa: BLE001
-        tb = traceback.format_exc()
-        ctx.fail("correspondence", f"{pid}/harness/crash", f"the correspondence/oracle harness could not run: {type(e).__name__}: {e}\n{tb[-1500:]}")
+    # the thorough tier repeats the correspondence / oracle part with further seeds (each failure records the seed of its
+    # round, so a replay re-runs exactly that round); a replay always runs one round
+    rounds = 1 if replay is not None else int(os.environ.get("VERIF_ROUNDS", "3" if tier == "thorough" else "1"))
+    ctx.seed0 = seed
+    ctx.rounds = rounds
+    for r in range(rounds):
+        if r > 0 and common.time.time() - ctx.t0 > float(os.environ.get("VERIF_ROUND_BUDGET_S", "600")):
+            ctx.notes.append(f"round {r + 1} of {rounds} not started: time budget for further rounds used up")
+            break
+        ctx.seed = seed + 7919 * r
+        try:
+            mod.check(ctx)
+        except Exception as e:  # noqa: BLE001
+            tb = traceback.format_exc()
+            ctx.fail("correspondence", f"{pid}/harness/crash", f"the correspondence/oracle harness could not run: {type(e).__name__}: {e}\n{tb[-1500:]}")
+        if any(f.kind in ("translator", "coq") for f in ctx.failures) and r == 0 and len([f for f in ctx.failures if f.has_input]) > 0:
+            break       # a broken tie with a failing input already found: further rounds add nothing
     if replay is not None:
         keys = {replay.get("key")} | {w.get("key") for w in replay.get("no_longer_checks", [])}
         again = [f for f in ctx.failures if f.key in keys]
